@@ -280,7 +280,7 @@ double SQuIDS::GetExpectationValue(SU_vector op, unsigned int nrh, unsigned int 
 SU_vector SQuIDS::GetIntermediateState(unsigned int nrh, double xi) const{
   //find bracketing state entries
   auto xit=std::lower_bound(x.begin(),x.end(),xi);
-  if(xit==x.end() || xi<x.front()) //above the last node or below the first
+  if(xit==x.end() || !(xi>=x.front())) //above the last node, below the first, or NaN
     throw std::runtime_error("SQUIDS::GetExpectationValueD : x value not in the array.");
   if(xit!=x.begin())
     xit--;
@@ -313,7 +313,7 @@ double SQuIDS::GetExpectationValueD(const SU_vector& op, unsigned int nrh, doubl
                                     SQuIDS::expectationValueDBuffer& buf) const{
   //find bracketing state entries
   auto xit=std::lower_bound(x.begin(),x.end(),xi);
-  if(xit==x.end() || xi<x.front()) //above the last node or below the first
+  if(xit==x.end() || !(xi>=x.front())) //above the last node, below the first, or NaN
     throw std::runtime_error("SQUIDS::GetExpectationValueD : x value not in the array.");
   if(xit!=x.begin())
     xit--;
@@ -335,7 +335,7 @@ double SQuIDS::GetExpectationValueD(const SU_vector& op, unsigned int nrh, doubl
                                     double scale, std::vector<bool>& avr) const{
   //find bracketing state entries
   auto xit=std::lower_bound(x.begin(),x.end(),xi);
-  if(xit==x.end() || xi<x.front()) //above the last node or below the first
+  if(xit==x.end() || !(xi>=x.front())) //above the last node, below the first, or NaN
     throw std::runtime_error("SQUIDS::GetExpectationValueD : x value not in the array.");
   if(xit!=x.begin())
     xit--;
@@ -364,7 +364,7 @@ void SQuIDS::Set_xrange(const std::vector<double>& xs){
 }
 
 unsigned int SQuIDS::Get_i(double xi) const{
-  if(xi>x[nx-1] || xi<x[0])
+  if(!(xi<=x[nx-1] && xi>=x[0])) //also true for NaN
     throw std::runtime_error(" Error SQUIDS::Get_i :  value  out of bounds");
 
   //find the first node strictly above xi; the interval ending there contains xi
